@@ -30,6 +30,8 @@ reg('k_remote_decode', "g_runtime", ['C20'], 'quick', 'scripted {addr: s} decode
 reg('k_remote_schema_name', "g_runtime", ['C20'], 'quick', 'schema_name() is `Remote` for every type parameter; Serialize + DeserializeOwned + JsonSchema hold for an unsized parameter with no impls', engine="K", fixture=RT)
 reg('k_utils_disjoint_returns_n2', "g_runtime", ['C05'], 'thorough', 'BOUNDED cross-check (not proof) of R1/R2 on the unmodified assert_no_intersection: N=2, lengths <= 2, 5-string alphabet: disjoint => returns', engine="K", fixture=RT)
 reg('k_utils_overlap_panics_n2', "g_runtime", ['C05'], 'thorough', 'BOUNDED cross-check (not proof): sorted lists sharing a name => the call never returns', engine="K", fixture=RT, expect_unreachable_cover=True)
+reg('k_utils_disjoint_returns_n3', "g_runtime", ['C05'], 'thorough', 'BOUNDED cross-check (not proof) on the unmodified assert_no_intersection: N=3, lengths <= 2, 5-string alphabet: disjoint => returns', engine="K", fixture=RT)
+reg('k_utils_overlap_panics_n3', "g_runtime", ['C05'], 'thorough', 'BOUNDED cross-check (not proof): N=3, sorted lists, first and third share a name => the call never returns', engine="K", fixture=RT, expect_unreachable_cover=True)
 reg('k_konst_contracts', "g_runtime", ['C05'], 'thorough', 'BOUNDED cross-check of the assumed konst::cmp_str / konst::eq_str contracts (strings <= 2 bytes)', engine="K", fixture=RT)
 reg('k_executor_builder_build', "g_runtime", ['C10'], 'quick', 'ExecutorBuilder<ReadyExecutorBuilderState>::{new, build}: WasmMsg::Execute with exactly the given contract address, funds and body', engine="K", fixture=RT)
 treg('runtime.T.remote_impls_unbounded', "g_runtime", ['C20'], RT)
